@@ -39,8 +39,14 @@ package badger
 //@ iface QueryManager.GetAll
 //@   trusted
 
+// Badger keeps a reference to the value slice until the transaction ends ("The current transaction keeps a
+// reference to the key and val byte slices", badger.Txn.SetEntry): world.kvBuf is the backing array of the value
+// most recently handed over, for the callers' contracts to say where it came from.
 //@ iface QueryManager.Set
 //@   trusted
+//@   params key, val
+//@   modifies world.kvBuf
+//@   ensures pin: world.kvBuf == backing(val)
 
 //@ iface QueryManager.Get
 //@   trusted
